@@ -20,3 +20,48 @@ Definition mk_snap (hexdata : string) (meta : string) : snap := (unhex hexdata, 
 Definition v_dynamic (static_ok : bool) (args : list (snap * snap)) : Z :=
   let same := unchanged_check args in
   verdict (if static_ok then same else true) same.
+
+(* ------------------------------------------------------------------------------------------
+   Faster literal transport (string literals cost ~100 us per character in coqc 8.16, primitive
+   integers ~1 us): a byte string of length n is printed as  (n, [c0; c1; ...])  where every ci is a
+   primitive 63-bit integer holding 7 bytes, most significant first; the last chunk is padded on
+   the right with zero bytes, the padding is cut off by [firstn n].  Decoding yields the same
+   [list byte] objects as [unhex]; the verified checker is unchanged. *)
+From Coq Require Import Uint63.
+From Coq.Strings Require Import Byte.
+
+Definition byte_of_int (i : int) : byte := byte_of_N (Z.to_N (Uint63.to_Z (Uint63.land i 255%uint63))).
+
+Definition chunk7 (i : int) : list byte :=
+  [ byte_of_int (Uint63.lsr i 48%uint63); byte_of_int (Uint63.lsr i 40%uint63); byte_of_int (Uint63.lsr i 32%uint63);
+    byte_of_int (Uint63.lsr i 24%uint63); byte_of_int (Uint63.lsr i 16%uint63); byte_of_int (Uint63.lsr i 8%uint63);
+    byte_of_int i ].
+
+Fixpoint unchunk7 (l : list int) : list byte :=
+  match l with
+  | nil => nil
+  | c :: t => chunk7 c ++ unchunk7 t
+  end.
+
+Definition bytes63 (n : Z) (l : list int) : list byte := firstn (Z.to_nat n) (unchunk7 l).
+
+(* a decoded byte string of the wrong length (printer and chunk list disagree) is rejected by
+   [wf63]; v_dynamic63 then returns 3 + 4 = 7 (never "agree and ok") *)
+Definition wf63 (n : Z) (l : list int) : bool :=
+  (0 <=? n) && (Z.of_nat (List.length l) =? (n + 6) / 7).
+
+Definition mk_snap63 (n : Z) (data : list int) (m : Z) (meta : list int) : snap := (bytes63 n data, bytes63 m meta).
+
+Definition v_dynamic63 (static_ok : bool)
+    (args : list ((Z * list int * Z * list int) * (Z * list int * Z * list int))) : Z :=
+  let wf1 := fun q : Z * list int * Z * list int => match q with (n, d, m, t) => wf63 n d && wf63 m t end in
+  let mk := fun q : Z * list int * Z * list int => match q with (n, d, m, t) => mk_snap63 n d m t end in
+  if forallb (fun p => wf1 (fst p) && wf1 (snd p)) args
+  then v_dynamic static_ok (map (fun p => (mk (fst p), mk (snd p))) args)
+  else 7.
+
+(* the two transports agree (every byte value, every position inside a chunk, a padded last chunk) *)
+Example transport_agree :
+  mk_snap63 10 [0x00017f80fffe10%uint63; 0x20304000000000%uint63] 3 [0x61623b00000000%uint63]
+  = mk_snap "00017f80fffe10203040"%string "ab;"%string.
+Proof. vm_compute. reflexivity. Qed.
